@@ -177,7 +177,7 @@ CLAIMED = {
          "silence longer than the limit it is gone, survivors made progress within their limit; never more than max-connections are served whatever "
          "knocks on however many listening sockets, and a waiting client is accepted once a connection is released; tied by a real-time correspondence "
          "against the real lighttpd (ten kinds of stalled clients incl. three HTTP/2 ones measured against the model's sweep count, 431/413 limits, "
-         "max-connections with two listening sockets, graceful stop during a download)",
+         "max-connections with two listening sockets, clients that never close after a 'Connection: close' response, graceful stop during a download)",
     note="PARTIAL: HTTP/2 stream timeouts, event-handler variants (only the default is run) and the graceful path are covered by the correspondence "
          "only; the write-idle clock of the real server starts when its socket buffers are full (wider window); ~15 s of real time; trusted: Coq "
          "kernel, extraction, lib/srv.py, lib/h2c.py, wall-clock measurement with +-1.5 s windows",
